@@ -2,6 +2,7 @@ import WfProofs.EngineRoute
 import WfProofs.EngineIdle
 import WfProofs.RunnerTicks
 import WfModel.Runner
+import WfProps.EngineShape
 /-!
 # C02 — every emitted event reaches each accepting step exactly once
 
